@@ -113,6 +113,10 @@ def build_stock(sw: SW, cls_name, lm, **arrays):
             kw["solver"] = v
         else:
             kw[k] = sw.stock_array(k, v)
+    if sw.layout == "F":        # all three arrays are given, each a non-contiguous view
+        for k in ("stock", "inflow", "outflow"):
+            if k not in kw:
+                kw[k] = sw.stock_array(k, None)
     return sw.it.construct(sw.prog.cls(cls_name), [], kw)
 
 
@@ -132,10 +136,21 @@ def copy_res(r):
 def case_tables(prog, cfg):
     """C08: survival / outflow-probability tables against the documented formula, and their validity identities"""
     sw = SW(prog, cfg["n_t"], cfg["labels"])
+    sw.layout = cfg.get("layout")
     dist = cfg["dist"]
     case = SCase("tables", f"{dist}._survival_by_year_id", cfg_desc(cfg))
     via = cfg.get("via", "set_prms")
-    kind, r = run_guarded(lambda: make_lifetime(sw, dist, cfg["over"], via="set_prms" if via == "set_prms-twice" else via, inflow_at=cfg["inflow_at"], n_pts=cfg["n_pts"]))
+    if via == "attributes":
+        # the documented way to configure an existing model (howtos/06_stocks): built with the defaults, settings assigned, then parametrised
+        def build():
+            lm, prms, at = make_lifetime(sw, dist, cfg["over"], via="set_prms", set_params=False)
+            sw.it.set_attr(lm, "inflow_at", cfg["inflow_at"], None)
+            sw.it.set_attr(lm, "n_pts_per_interval", cfg["n_pts"], None)
+            sw.it.call_method(lm, "set_prms", **prms)
+            return lm, prms, at
+        kind, r = run_guarded(build)
+    else:
+        kind, r = run_guarded(lambda: make_lifetime(sw, dist, cfg["over"], via="set_prms" if via == "set_prms-twice" else via, inflow_at=cfg["inflow_at"], n_pts=cfg["n_pts"]))
     if kind != "ok":
         case.v("sf-oracle", False, f"building the lifetime model ended with {kind}: {r}", "LifetimeModel.cast_any_to_np_array")
         return case
@@ -188,6 +203,7 @@ def inflow_driven(sw, dist, cfg, drv="in"):
 
 def case_inflow_driven(prog, cfg):
     sw = SW(prog, cfg["n_t"], cfg["labels"])
+    sw.layout = cfg.get("layout")
     dist = cfg["dist"]
     case = SCase("inflow-driven", "InflowDrivenDSM.compute", cfg_desc(cfg))
     kind, r = run_guarded(lambda: inflow_driven(sw, dist, cfg))
@@ -311,6 +327,7 @@ def judge_cohorts(case, sw, st, lm, cls_name):
 def case_stock_driven(prog, cfg):
     """C10 (+C03/C09/C16 for the stock-driven model)"""
     sw = SW(prog, cfg["n_t"], cfg["labels"])
+    sw.layout = cfg.get("layout")
     dist = cfg["dist"]
     case = SCase("stock-driven", "StockDrivenDSM.compute", cfg_desc(cfg))
     kind, r = run_guarded(lambda: inflow_driven(sw, dist, cfg))
@@ -387,6 +404,7 @@ def case_stock_driven(prog, cfg):
 def case_zero_roundtrip(prog, cfg):
     """C10 at the zero driver: the round trip must return zero flows AND the (zero) cohort tables, like for any other driver"""
     sw = SW(prog, cfg["n_t"], cfg["labels"])
+    sw.layout = cfg.get("layout")
     dist = cfg["dist"]
     case = SCase("zero-roundtrip", "StockDrivenDSM.compute", dict(cfg_desc(cfg), driver="identically zero"))
     zero = SArr.full(sw.shape, 0)
@@ -417,6 +435,7 @@ def case_zero_roundtrip(prog, cfg):
 
 def case_simple(prog, cfg):
     sw = SW(prog, cfg["n_t"], cfg["labels"])
+    sw.layout = cfg.get("layout")
     case = SCase("flow-driven", "SimpleFlowDrivenStock.compute", cfg_desc(cfg))
 
     def go():
@@ -441,6 +460,7 @@ STEPS = {
     "C": "compute()", "P": "set_prms(B)", "D": "driver := second driver", "Z": "driver := 0", "R": "read sf and pdf",
     "U": "(parameters not set yet)", "N": "set_prms(negative mean)", "A": "set_prms(A)",
     "E": "set_prms(A perturbed by less than any tolerance)", "T": "driver := driver scaled below any tolerance",
+    "Q": "lifetime_model.inflow_at assigned another value",
 }
 
 
@@ -448,6 +468,7 @@ def case_history(prog, cfg, cls_name, hist):
     """run a history of steps on ONE stock object; after every successful compute() all results must equal those of a
     freshly built object holding the same driver and parameters"""
     sw = SW(prog, cfg["n_t"], cfg["labels"])
+    sw.layout = cfg.get("layout")
     dist = cfg["dist"]
     qual = f"{cls_name}.compute"
     case = SCase("history", qual, dict(cfg_desc(cfg), stock_class=cls_name, history=[STEPS[h] for h in hist]))
@@ -495,6 +516,7 @@ def case_history(prog, cfg, cls_name, hist):
         return case
     st, lm = r
     version, driver = (None if unset else "A"), d1
+    quadrature_changed = False
     for i, step in enumerate(hist):
         if step == "U":
             continue
@@ -526,6 +548,13 @@ def case_history(prog, cfg, cls_name, hist):
             if kind != "ok":
                 case.v("recompute", False, f"step {i} setting the driver ended with {kind}: {r}")
                 return case
+        elif step == "Q":
+            if dsm:
+                # documented way to configure a model (howtos/06_stocks): assign the attribute.  Whether tables computed before
+                # follow the new setting is not part of any property; that all results stay mutually consistent is.
+                cur = sw.it.get_attr(lm, "inflow_at")
+                run_guarded(lambda: sw.it.set_attr(lm, "inflow_at", "start" if cur != "start" else "end", None))
+                quadrature_changed = True
         elif step == "R":
             if dsm:
                 run_guarded(lambda: sw.it.get_attr(lm, "sf"))
@@ -540,13 +569,15 @@ def case_history(prog, cfg, cls_name, hist):
             if kind != "ok":
                 case.v("recompute", False, f"step {i}: compute() ended with {kind}: {r}")
                 return case
-            kind2, ref = run_guarded(lambda: fresh(version, driver))
-            if kind2 != "ok":
-                raise AnalysisAbort(f"reference object could not be computed: {ref}")
             got = results(st)
             judge_stock(case, sw, st, drv_name, cls_name)
             if dsm:
                 judge_cohorts(case, sw, st, lm, cls_name)
+            if quadrature_changed:
+                continue        # no reference object: which quadrature the tables follow is not decided here
+            kind2, ref = run_guarded(lambda: fresh(version, driver))
+            if kind2 != "ok":
+                raise AnalysisAbort(f"reference object could not be computed: {ref}")
             bad = None
             for k in ref:
                 d = first_diff(got.get(k), ref[k])
@@ -574,7 +605,10 @@ def table_configs(tier):
                 if tier == "quick" and over not in ("number", "all"):
                     quads = [(1, "middle"), (2, "middle")]
                 for n_pts, ia in quads:
-                    for via in (("set_prms", "__init__", "set_prms-twice") if over in ("number", "all") and n_pts == 1 and ia == "middle" else ("set_prms",)):
+                    vias = ("set_prms", "__init__", "set_prms-twice") if over in ("number", "all") and n_pts == 1 and ia == "middle" else ("set_prms",)
+                    if over == "number" and (n_pts, ia) in ((1, "start"), (1, "end"), (2, "middle")):
+                        vias += ("attributes",)
+                    for via in vias:
                         out.append(dict(n_t=n_t, labels=labels, dist=dist, over=over, n_pts=n_pts, inflow_at=ia, via=via))
     return out
 
@@ -597,6 +631,11 @@ def dsm_configs(tier):
                 for n_pts, ia in ([(1, "middle")] if tier == "quick" or n_t > 3 else [(1, "middle"), (1, "start"), (2, "middle")]):
                     out.append(dict(n_t=n_t, labels=labels, dist=dist, over=over, n_pts=n_pts, inflow_at=ia))
     return out
+
+
+def layout_configs(tier):
+    """stock arrays whose values are non-contiguous (column-major) views, with two label dimensions"""
+    return [dict(n_t=3, labels=("a", "b"), dist="NormalLifetime", over=o, n_pts=1, inflow_at="middle", both_generic=True, layout="F") for o in ("all", "number")]
 
 
 def int_driver_configs(tier):
